@@ -137,6 +137,9 @@ def run(db, chk):
     chk.rule("C07-G1", "offset lists, neighbour counts and index linearisation equal the geometric "
              "specification for every connectivity x looping configuration x node code",
              min_instances=114)
+    chk.rule("C07-G5", "flat index <-> (row, col): unravel_idx(r*ncols + c) == (r, c) and ravel_idx(r, c) == "
+             "r*ncols + c as exact integer identities for symbolic r, c, ncols (the (row, col) accessors go "
+             "through them)", min_instances=4)
     chk.rule("C07-G2", "neighbour look-ups read only members that nothing writes after construction",
              min_instances=7)
     chk.rule("C07-G3", "all neighbour accessors use the same count and the same (cached) index list",
@@ -224,6 +227,55 @@ def run(db, chk):
             chk.ob("C07-G1", "[%s] neighbors_indices_impl linearises (row, col) offsets row-major" % uname,
                    ok, where=nii[0].ploc, function=nii[0].bn, construct="linearise", detail=det,
                    extra={"unit": uname})
+            # ---- G5: the (row, col) accessors go through unravel_idx / ravel_idx
+            unr = db.fns("fastscapelib::raster_grid::unravel_idx", unit=uname)
+            rav = db.fns("fastscapelib::raster_grid::ravel_idx", unit=uname)
+            if not unr or not rav:
+                raise AnalysisBroken("raster_grid::unravel_idx / ravel_idx not instantiated in %s" % uname)
+            NCs, Rs, Cs = Poly.sym("NC"), Poly.sym("r"), Poly.sym("c")
+
+            class IdxWorld(GridWorld):
+                def sym_binop(self, op, a, b):
+                    # integer division / remainder of r*NC + c (0 <= c < NC) by NC
+                    if op in ("/", "%") and isinstance(a, Poly) and isinstance(b, Poly) and norm(b) == norm(NCs):
+                        q, rem = {}, {}
+                        for mono, k in a.terms.items():
+                            if "NC" in mono:
+                                m2 = list(mono)
+                                m2.remove("NC")
+                                q[tuple(m2)] = q.get(tuple(m2), 0) + k
+                            else:
+                                rem[mono] = k
+                        if norm(Poly(rem)) in (norm(Cs), norm(Poly.of(0))):
+                            return Poly(q) if op == "/" else Poly(rem)
+                    # anything else (floating-point arithmetic on an index, unknown operand) is not an
+                    # exact integer operation for all shapes
+                    return Poly.sym("inexact<%s %s %s>" % (a, op, b))
+
+                def narrow_cast(self, it2, type_str, value, where):
+                    return Poly.sym("truncated<%s>(%s)" % (type_str, value))
+
+            class Lenient(Obj):
+                def getfield(self, n):
+                    if n not in self.fields:
+                        return Poly.sym("member<%s>" % n)
+                    return self.fields[n]
+            it = Interp(IdxWorld())
+            this = Lenient("fastscapelib::raster_grid", {"m_shape": PyVec([Poly.sym("NR"), NCs])})
+            bad = []
+            try:
+                got = it.rv(it.call_fn(unr[0], this, [Rs * NCs + Cs]))
+                if not (isinstance(got, (tuple, list)) and len(got) == 2 and isinstance(got[0], Poly)
+                        and isinstance(got[1], Poly) and norm(got[0]) == norm(Rs) and norm(got[1]) == norm(Cs)):
+                    bad.append("unravel_idx(r*ncols + c) = %r, expected (r, c)" % (got,))
+                got2 = it.rv(it.call_fn(rav[0], this, [Rs, Cs]))
+                if not (isinstance(got2, Poly) and norm(got2) == norm(Rs * NCs + Cs)):
+                    bad.append("ravel_idx(r, c) = %r, expected r*ncols + c" % (got2,))
+            except ThrowEx as ex:
+                bad.append("threw %s" % ex.text)
+            chk.ob("C07-G5", "[%s] unravel_idx / ravel_idx are exact inverses for every shape (symbolic r, c, ncols)"
+                   % uname, not bad, where=unr[0].ploc, function=unr[0].bn, construct="unravel",
+                   detail="; ".join(bad)[:400], extra={"unit": uname})
         elif uname.startswith("profile"):
             nii = db.fns("fastscapelib::profile_grid::neighbors_indices_impl", unit=uname)
             bnc = db.fns("fastscapelib::profile_grid::build_neighbors_count", unit=uname)
@@ -297,6 +349,9 @@ def run(db, chk):
                extra={"unit": uname})
         # ---- G4: by-reference accessors leave exactly `count` entries, whatever the container held
         n_sc += accessor_sizes(db, chk, uname)
+    chk.absorb(db, "C10", {"C10-X1"}, "C07-G6", "neighbour look-ups keep no storage shared between threads that a "
+               "concurrent look-up on the same grid could overwrite (shared with C10-X1)",
+               pred=lambda o: "apply_par" in o["instance"], min_instances=7)
     chk.count_scenarios(n_sc, True)
 
 
